@@ -260,6 +260,30 @@ func (s *kvSUT) Apply(e core.Ev) (any, any) {
 	case "Iterate":
 		items, err := listing(view, getBytes(e, "k"), core.Str(e, "dir"), core.Int(e, "n"))
 		return core.Ev{"err": errName(err), "kv": kvSeq(items)}, s.st()
+	case "IterMut":
+		// an iteration whose consumer, at its first entry, writes through another handle
+		var out []item
+		inner := "none"
+		mview := s.views[core.Int(e, "mv")]
+		consume := func(k hkv.Key, v hkv.Value) bool {
+			out = append(out, item{cp(k), cp(v)})
+			scribble(v)
+			if len(out) == 1 {
+				if core.Bool(e, "del") {
+					inner = errName(mview.Delete(getBytes(e, "mk")))
+				} else {
+					inner = errName(mview.Set(getBytes(e, "mk"), getBytes(e, "val")))
+				}
+			}
+			return true
+		}
+		var err error
+		if core.Str(e, "dir") == "bwd" {
+			err = view.Iterate(getBytes(e, "k"), consume, hkv.IterDirectionBackward)
+		} else {
+			err = view.Iterate(getBytes(e, "k"), consume, hkv.IterDirectionForward)
+		}
+		return core.Ev{"err": errName(err), "kv": kvSeq(out), "inner": inner}, s.st()
 	case "IterateKeys":
 		keys, err := listKeys(view, getBytes(e, "k"), core.Str(e, "dir"), core.Int(e, "n"))
 		out := make([]any, len(keys))
@@ -452,9 +476,15 @@ func (s *kvSUT) RandomStimulus(r *rand.Rand) core.Ev {
 		case x < 53:
 			p := s.prefixPair(r)
 			return core.Ev{"op": "Iterate", "v": p.v, "k": bs(p.k), "dir": dir, "n": n}
-		case x < 59:
+		case x < 57:
 			p := s.prefixPair(r)
 			return core.Ev{"op": "IterateKeys", "v": p.v, "k": bs(p.k), "dir": dir, "n": n}
+		case x < 59:
+			p, q := s.prefixPair(r), s.poolPair(r)
+			if r.Intn(2) == 0 {
+				return core.Ev{"op": "IterMut", "v": p.v, "k": bs(p.k), "dir": dir, "mv": q.v, "mk": bs(q.k), "del": true, "val": []any{}}
+			}
+			return core.Ev{"op": "IterMut", "v": p.v, "k": bs(p.k), "dir": dir, "mv": q.v, "mk": bs(q.k), "del": false, "val": bs([]byte{2})}
 		case x < 61:
 			return core.Ev{"op": "Flush", "v": v}
 		case x < 62:
